@@ -1150,7 +1150,11 @@ func (h *hist) judge(changes interface{}) {
 		}
 		if len(rec.Allowed) == 0 {
 			r.Count("no_pickable_endpoint_cases", 1)
-			if rec.Status != 503 {
+			if rec.Status == 0 && rec.Err != "" {
+				// the harness's own client could not talk to the in-process gateway (e.g. out of file descriptors)
+				r.Count("client_side_errors", 1)
+				clientErrOnce.Do(func() { r.Inconclusive("client-side error talking to the in-process gateway: " + rec.Err) })
+			} else if rec.Status != 503 {
 				r.Violation(fmt.Sprintf("C03/%s/no-pickable-endpoint/status-%d", scen, rec.Status),
 					fmt.Sprintf("request %s (policy %d): no endpoint may be picked, nothing was forwarded, but the client got status %d (err %q) instead of 503", rec.ID, rec.Policy, rec.Status, rec.Err), w)
 			} else {
@@ -1408,18 +1412,17 @@ func disableRacingProbes(r *vkit.R, id int, g *vkit.Rand, iters int) {
 					return
 				default:
 				}
+				// paced (a few thousand calls per second and goroutine): enough to keep the checker probing back to back,
+				// and bounded even if every call should start a probe of its own
 				ep.TriggerHealthCheck()
-				if n%8 == 0 {
-					time.Sleep(5 * time.Microsecond)
-				} else {
-					runtime.Gosched()
-				}
+				time.Sleep(time.Duration(200+n%5*100) * time.Microsecond)
 			}
 		}()
 	}
 	defer func() { close(stop); hw.Wait() }()
 	settleEvery := iters / 3
 	probeWaitExpired := 0
+	found := 0
 	for it := 0; it < iters && !h.bad; it++ {
 		if !h.apply(m) {
 			return
@@ -1447,7 +1450,11 @@ func disableRacingProbes(r *vkit.R, id int, g *vkit.Rand, iters int) {
 		from := bed.Now()
 		h.m = dis
 		r.Count("racing_disable_iterations", 1)
+		if found >= 3 {
+			break // the scenario has its verdict
+		}
 		if ep.IsReady() {
+			found++
 			r.Violation("C03/disable-racing-probe-result/still-ready-after-disable",
 				fmt.Sprintf("iteration %d: the disabling sync returned while health-probe results were being recorded, and the endpoint still reports ready", it),
 				map[string]interface{}{"history": h.id, "iteration": it, "servers": k, "trigger_goroutines": nh, "model": dis})
@@ -1458,7 +1465,13 @@ func disableRacingProbes(r *vkit.R, id int, g *vkit.Rand, iters int) {
 			h.open[0] = di
 			time.Sleep(settle + 60*time.Millisecond)
 			h.send(g, &reqRec{Policy: 0, Phase: "disable-racing-probe-result", Step: it, After: dis, Allowed: dis.pickable(0, k)})
-			h.closeInterval(di, bed.Now())
+			if n := len(h.probes(0)); true {
+				before := r.Violations()
+				h.closeInterval(di, bed.Now())
+				if r.Violations() != before || n > 200000 {
+					found += 3
+				}
+			}
 		}
 	}
 	if h.bad {
@@ -1467,6 +1480,8 @@ func disableRacingProbes(r *vkit.R, id int, g *vkit.Rand, iters int) {
 	r.Count("racing_disable_scenarios", 1)
 	h.judge([]string{fmt.Sprintf("%d goroutines call TriggerHealthCheck on stub0's endpoint continuously", nh), fmt.Sprintf("%d x (Apply enabled, Apply disabled, check)", iters)})
 }
+
+var clientErrOnce sync.Once
 
 // spellingsWork: whether the sandbox can reach a 127.0.0.1 listener through "[::ffff:127.0.0.1]" and "LOCALHOST" at all
 // (decided once with plain net.Dial against a throw-away listener; if not, the spellings are not generated and the run
